@@ -178,9 +178,35 @@ def minimize(mod, case, viol, budget=200):
                 if try_case(cand):
                     changed = True
                     break
+    # schedule minimisation: turn a seeded schedule into its explicit switch list, then thin that out
+    conv = getattr(mod, "explicit_of", None)
+    if conv is not None and stats["replays"] < budget:
+        try:
+            r = run_guarded(mod, best)
+            cand = jsonable(conv(best, r))
+        except Exception:
+            cand = None
+        if cand is not None and try_case(cand):
+            for f in [f for f in getattr(mod, "SHRINK", []) if isinstance(best.get(f), list)]:
+                n = 2
+                while len(best[f]) >= 1 and stats["replays"] < budget:
+                    items = best[f]
+                    chunk = max(1, len(items) // n)
+                    reduced = False
+                    for start in range(0, len(items), chunk):
+                        cand = dict(best)
+                        cand[f] = items[:start] + items[start + chunk:]
+                        if try_case(cand):
+                            reduced = True
+                            n = max(n - 1, 2)
+                            break
+                    if not reduced:
+                        if chunk == 1:
+                            break
+                        n = min(len(items), n * 2)
     best = dict(best)
     best["_minimised"] = {"replays": stats["replays"], "from_sizes": {f: len(case[f]) for f in fields},
-                          "to_sizes": {f: len(best[f]) for f in fields}}
+                          "to_sizes": {f: len(best[f]) for f in fields if isinstance(best.get(f), list)}}
     return best, bestv
 
 
